@@ -71,6 +71,8 @@ def run_family(chk, pid, n_quick, n_thorough, extra=()):
     n = common.tier_n(chk.tier, n_quick, n_thorough)
     for i in range(n):
         scs.append(("gen", dg.gen_scenario(rnd, size="small" if i % 3 else "medium", jobs_heavy=(pid == "C13" or i % 2 == 0))))
+    for _ in range(common.tier_n(chk.tier, 1, 4)):
+        scs.append(("long", dg.gen_long(rnd)))
     items, owners = [], []
     for label, sc in scs:
         log, outcome = dd.run_scenario(sc)
